@@ -23,6 +23,8 @@ struct AttrCase {
     perm_seed: u64,
     /// enum T<'a, G> with a variant holding G and one holding &'a str (items `type G = ..`, `lifetime = ..`)
     generic: bool,
+    /// named arguments written without blanks around `=` (`callback=|lex| ..`, `priority=3`): the same tokens, glued
+    glue: bool,
 }
 
 fn permutations<T: Clone>(v: &[T], limit: usize, seed: u64) -> Vec<Vec<T>> {
@@ -80,7 +82,11 @@ fn render(case: &AttrCase, named: &[String], items: &[(String, bool, bool)]) -> 
     }
     for n in named {
         args.push_str(", ");
-        args.push_str(n);
+        if case.glue {
+            args.push_str(&n.replacen(" = ", "=", 1));
+        } else {
+            args.push_str(n);
+        }
     }
     let mut all_items: Vec<String> = items.iter().map(|i| i.0.clone()).collect();
     if case.form == "skip" {
@@ -128,6 +134,9 @@ fn check(case: &AttrCase, run: &mut Run) -> Result<(), String> {
             continue;
         }
         run.eval(1);
+        if case.glue && perm.iter().any(|n| n.starts_with("callback = |")) {
+            run.count("permutations_with_glued_closure_argument", 1);
+        }
         if perm.len() >= 2 && paren_not_last(&perm) {
             run.nontrivial(fnv(render(case, &perm, &case.logos_items).as_bytes()));
         }
@@ -251,6 +260,12 @@ fn strategy() -> BoxedStrategy<AttrCase> {
             ("skip(\"\\t\", priority = 9)", true, false),
             ("skip(\"#[a-z]*\", ignore(case))", true, false),
             ("skip(\"(?&ws)+\")", true, false),
+            // the same literal twice, told apart by their named arguments only
+            ("skip(\"#[a-z]*\", priority = 9)", true, false),
+            ("skip(\"rem\", priority = 10)", true, false),
+            ("skip(\"rem\", ignore(case))", true, false),
+            ("skip(\"rem\", ignore(case))", true, false),
+            ("skip(\"rem\", priority = 10)", true, false),
             ("utf8 = false", false, false),
             ("utf8 = true", false, false),
             ("error = MyError", false, false),
@@ -330,7 +345,8 @@ fn strategy() -> BoxedStrategy<AttrCase> {
             }
             // canonical order: subpatterns first (ws before ws2), then the rest as generated
             li.sort_by_key(|i| if i.0.starts_with("subpattern ws =") { 0 } else if i.2 { 1 } else { 2 });
-            AttrCase { form, literal, positional_cb, named, logos_items: li, perm_seed, generic }
+            let glue = (perm_seed >> 7) % 3 == 0;
+            AttrCase { form, literal, positional_cb, named, logos_items: li, perm_seed, generic, glue }
         })
         .boxed()
 }
